@@ -15,4 +15,4 @@ for p in "$@"; do
 done
 git -C /repo worktree remove --force "$wt"
 # restore the regenerated tables (Gen/Fsm*.lean, Gen/Layout.lean) of the real repository
-[ -x /verif/tools/regen.sh ] && /verif/tools/regen.sh >/dev/null 2>&1 || true
+# (every check regenerates its Gen tables at its start under the lean lock; nothing to restore here)
